@@ -2130,7 +2130,10 @@ m("C07", "unquoted-value-keeps-empty-quote", ZP,
 ''', "")
 m("C14", "translate-mapping-in-set-order", C,
   "            for name in sorted(names):\n",
-  "            for name in names:\n")
+  "            for name in set(names):\n")
+m("C14", "refactor-translate-mapping-in-document-order", C,
+  "            for name in sorted(names):\n",
+  "            for name in names:\n", expect="silent")
 m("C08", "indent-counted-in-blanks", ZP,
   '''                indent if not indent.strip() else " " * len(indent)''',
   '''                " " * len(indent)''')
